@@ -28,8 +28,12 @@ package main
 //	                and the capacity of make([]T, 0, n) are hints.
 //	delimiters      "the token X is the delimiter n" is delim(X,n), whether the source compares the interface value with
 //	                the constant (`t != json.Delim('{')`) or asserts the type and compares then, both failures alike.
-//	closures        a function literal is the value func{<its tree>}, the variables it captures and assigns bound
-//	                like loop variables (C<n>.v<i>); calling a function held in a local is `call#k call(f,…)`.
+//	closures        a function literal is the value func from {v0=…}{<its tree>}, the variables it captures and assigns bound
+//	                like loop variables (C<n>.v<i>; `from` says what they hold when the closure is made); calling a
+//	                function held in a local is `call#k call(f,…)`.  A METHOD VALUE `x.m`, x a pointer to a struct
+//	                literal of the package (`r.newIterator().nextValue`), is the same thing: the fields of the struct
+//	                that its methods assign are the captured variables (numbered in declaration order), the other
+//	                fields are the values of the literal, calls of the struct's other methods on it are inlined.
 //
 // The functions that have their own fact — the exported methods of the row struct but Has, parseobject, NewRow,
 // CloneRow, asRow, parsearray, handledelim, LcFirst, NewValue, CloneValue — are never inlined into each other
@@ -77,7 +81,9 @@ type loopCtx struct {
 	post    ast.Stmt
 	marker  *ast.BranchStmt
 	maxCall int
-	prefix  string // "L" for loops, "C" for closures
+	prefix  string            // "L" for loops, "C" for closures
+	ofields []string          // a bound method: the fields of its object the methods assign (keys of vstate.fields), numbered after `carried`
+	oentry  map[string]string // what they hold when the method is entered
 }
 
 type rowX struct {
@@ -86,10 +92,11 @@ type rowX struct {
 	rowType string // the struct with a *list.List, a map to Value and a map to *list.Element
 	loops   []*loopCtx
 	nloop   int
+	objType map[string]string // O<n> -> the struct of the object of a bound method
 }
 
 func newRowX(p *pkgInfo) *rowX {
-	rx := &rowX{p: p, x: newValX(p)}
+	rx := &rowX{p: p, x: newValX(p), objType: map[string]string{}}
 	// the row struct, by the types of its fields
 	var names []string
 	for _, n := range p.pkg.Scope().Names() {
@@ -374,6 +381,11 @@ func (rx *rowX) evalHook(e ast.Expr, st *vstate, pend *[]*vtree) (string, bool, 
 		}
 		return a + "[" + i + "]", true, true
 	case *ast.SelectorExpr:
+		if fo, isFunc := rx.p.info.Uses[n.Sel].(*types.Func); isFunc {
+			if sig, ok := fo.Type().(*types.Signature); ok && sig.Recv() != nil {
+				return rx.methodValue(n, st, pend) // a method value (a call's Fun never comes here)
+			}
+		}
 		id, ok := n.X.(*ast.Ident)
 		if !ok {
 			if v, isVar := rx.p.info.Uses[n.Sel].(*types.Var); isVar && v.IsField() {
@@ -381,6 +393,15 @@ func (rx *rowX) evalHook(e ast.Expr, st *vstate, pend *[]*vtree) (string, bool, 
 					s, ok := x.eval(n.X, st, pend)
 					return s + "." + n.Sel.Name, ok, true
 				}
+				// a field of a field: `it.current.Value`; `it.r.m`, where `it.r` is the row, is left to the executor
+				var tmp []*vtree
+				saved := st.ncall
+				s, ok := x.eval(n.X, st, &tmp)
+				if !ok || s == "R" || len(tmp) != 0 {
+					st.ncall = saved
+					return "", false, false
+				}
+				return s + "." + n.Sel.Name, true, true
 			}
 			return "", false, false
 		}
@@ -394,6 +415,11 @@ func (rx *rowX) evalHook(e ast.Expr, st *vstate, pend *[]*vtree) (string, bool, 
 		s, bound := st.vars[obj]
 		if !bound || s == "R" {
 			return "", false, false
+		}
+		if objRef.MatchString(s) {
+			if v, ok := st.fields["o:"+s+"."+n.Sel.Name]; ok {
+				return st.norm(v), true, true // a field of the object of a bound method
+			}
 		}
 		return st.norm(s) + "." + n.Sel.Name, true, true
 	case *ast.CallExpr:
@@ -516,15 +542,40 @@ func (rx *rowX) inlineValue(call *ast.CallExpr, st *vstate, pend *[]*vtree) (str
 	rx.loops = nil
 	t := x.exec(fd.Body.List, st2, fr2)
 	rx.loops = savedLoops
+	// straight-line calls, then the value (`return &rowIterator{r: r, current: r.l.Front()}`)
+	var chain []*vtree
+	for t != nil && t.kind == "call" {
+		chain = append(chain, t)
+		t = t.next
+	}
 	if t == nil || t.kind != "leaf" || len(t.rets) != 1 || len(t.fields) != 0 || strings.HasPrefix(t.rets[0], "<") {
 		return fail()
 	}
 	x.cur, rx.nloop = savedCur, savedLoop
 	*pend = append(*pend, tmp...)
+	for _, c := range chain {
+		*pend = append(*pend, &vtree{kind: "call", id: c.id, fn: c.fn, args: c.args})
+		if c.id > st.ncall {
+			st.ncall = c.id
+		}
+	}
 	return t.rets[0], true
 }
 
 func (rx *rowX) assignHook(lhs ast.Expr, sym string, st *vstate) (bool, bool) {
+	if sel, ok := ast.Unparen(lhs).(*ast.SelectorExpr); ok {
+		if id, ok := ast.Unparen(sel.X).(*ast.Ident); ok {
+			if o := rx.p.info.Uses[id]; o != nil && objRef.MatchString(st.vars[o]) {
+				key := "o:" + st.vars[o] + "." + sel.Sel.Name
+				if _, has := st.fields[key]; has {
+					st.fields[key] = sym // the state of a bound method's object
+					return true, true
+				}
+				return false, true
+			}
+		}
+		return false, false
+	}
 	ix, ok := ast.Unparen(lhs).(*ast.IndexExpr)
 	if !ok {
 		return false, false
@@ -605,6 +656,11 @@ func (rx *rowX) loopLeaf(c *loopCtx, st *vstate, rets []string) *vtree {
 	for i, obj := range c.carried {
 		if v := st.norm(st.vars[obj]); v != c.entry[obj] {
 			leaf.fields[fmt.Sprintf("v%d", i)] = v
+		}
+	}
+	for i, key := range c.ofields {
+		if v := st.norm(st.fields[key]); v != c.oentry[key] {
+			leaf.fields[fmt.Sprintf("v%d", len(c.carried)+i)] = v
 		}
 	}
 	if st.ncall > c.maxCall {
@@ -820,6 +876,9 @@ func (rx *rowX) stmtHook(s ast.Stmt, rest []ast.Stmt, st *vstate, fr *vframe) *v
 		return x.exec(rest, st, fr)
 	case *ast.ExprStmt:
 		if call, ok := ast.Unparen(n.X).(*ast.CallExpr); ok {
+			if key, fd, sym := rx.objMethod(call, st); fd != nil {
+				return rx.inlineObj(call, key, fd, sym, st, fr, func(st2 *vstate, _ []string) *vtree { return x.exec(rest, st2, fr) })
+			}
 			if id, ok := ast.Unparen(call.Fun).(*ast.Ident); ok && id.Name == "panic" {
 				if _, isB := rx.p.info.Uses[id].(*types.Builtin); isB {
 					return &vtree{kind: "leaf", rets: []string{"<panic>"}}
@@ -829,6 +888,16 @@ func (rx *rowX) stmtHook(s ast.Stmt, rest []ast.Stmt, st *vstate, fr *vframe) *v
 		return nil
 	case *ast.ReturnStmt:
 		if len(n.Results) == 1 {
+			if call, ok := ast.Unparen(n.Results[0]).(*ast.CallExpr); ok {
+				if key, fd, sym := rx.objMethod(call, st); fd != nil {
+					return rx.inlineObj(call, key, fd, sym, st, fr, func(st2 *vstate, rets []string) *vtree {
+						if len(rets) != fr.nres {
+							return x.unk(s)
+						}
+						return fr.ret(st2, rets)
+					})
+				}
+			}
 			if call, ok := ast.Unparen(n.Results[0]).(*ast.CallExpr); ok && rx.callKind(call, st) != "" {
 				rets, ok := rx.evalCallX(call, st, &pend, fr.nres)
 				if !ok || len(rets) != fr.nres {
@@ -846,6 +915,21 @@ func (rx *rowX) stmtHook(s ast.Stmt, rest []ast.Stmt, st *vstate, fr *vframe) *v
 			return nil
 		}
 		rhs := ast.Unparen(n.Rhs[0])
+		if call, ok := rhs.(*ast.CallExpr); ok {
+			if key, fd, sym := rx.objMethod(call, st); fd != nil {
+				return rx.inlineObj(call, key, fd, sym, st, fr, func(st2 *vstate, rets []string) *vtree {
+					if len(rets) != len(n.Lhs) {
+						return x.unk(s)
+					}
+					for i, l := range n.Lhs {
+						if !x.assign(l, rets[i], st2) {
+							return x.unk(s)
+						}
+					}
+					return x.exec(rest, st2, fr)
+				})
+			}
+		}
 		// v, ok := A[k]
 		if ix, ok := rhs.(*ast.IndexExpr); ok && len(n.Lhs) == 2 {
 			a, ok1 := x.eval(ix.X, st, &pend)
@@ -1080,9 +1164,13 @@ func (rx *rowX) closure(n *ast.FuncLit, st *vstate) (string, bool, bool) {
 	st2 := st.clone()
 	st2.known = map[string]bool{}
 	rx.forgetWrites(st2)
+	var from []string
 	for i, obj := range c.carried {
 		c.entry[obj] = fmt.Sprintf("C%d.v%d", id, i)
 		st2.vars[obj] = c.entry[obj]
+		if init, ok := st.vars[obj]; ok {
+			from = append(from, fmt.Sprintf("v%d=%s", i, st.norm(init))) // what the captured variable holds when the closure is made
+		}
 	}
 	i := 0
 	for _, f := range n.Type.Params.List {
@@ -1115,7 +1203,228 @@ func (rx *rowX) closure(n *ast.FuncLit, st *vstate) (string, bool, bool) {
 	t := x.exec(n.Body.List, st2, fr)
 	rx.loops = rx.loops[:len(rx.loops)-1]
 	x.cur = saved
-	return "func{" + t.String() + "}", true, true
+	return "func" + fromHeader(from) + "{" + t.String() + "}", true, true
+}
+
+func fromHeader(from []string) string {
+	if len(from) == 0 {
+		return ""
+	}
+	return " from {" + strings.Join(from, ",") + "}"
+}
+
+var objSym = regexp.MustCompile(`^&(\w+)\{(.*)\}$`)
+var objRef = regexp.MustCompile(`^O\d+$`)
+
+// methodValue: `x.m` with m a method of a struct of the package and x a pointer to a struct literal (`r.newIterator().nextValue`)
+// is a closure over that object: the fields the methods of the struct assign are its state, bound like the captured
+// variables of a function literal (C<n>.v<i>, numbered in the order the struct declares them), the others are the
+// values the literal gives them.  The method's calls of other methods on the same object are inlined.
+func (rx *rowX) methodValue(n *ast.SelectorExpr, st *vstate, pend *[]*vtree) (string, bool, bool) {
+	x := rx.x
+	fo, ok := rx.p.info.Uses[n.Sel].(*types.Func)
+	if !ok || fo.Pkg() != rx.p.pkg {
+		return "", false, false
+	}
+	sig, ok := fo.Type().(*types.Signature)
+	if !ok || sig.Recv() == nil {
+		return "", false, false
+	}
+	var tmp []*vtree
+	savedCall := st.ncall
+	xs, ok := x.eval(n.X, st, &tmp)
+	m := objSym.FindStringSubmatch(xs)
+	if !ok || m == nil {
+		st.ncall = savedCall
+		return "", false, false
+	}
+	tname := m[1]
+	fd := x.funcs[tname+"."+n.Sel.Name]
+	tn, _ := rx.p.pkg.Scope().Lookup(tname).(*types.TypeName)
+	if fd == nil || tn == nil || tname == rx.rowType {
+		st.ncall = savedCall
+		return "", false, false
+	}
+	stt, ok := tn.Type().Underlying().(*types.Struct)
+	if !ok {
+		st.ncall = savedCall
+		return "", false, false
+	}
+	vals := map[string]string{}
+	for _, kv := range splitTop(m[2]) {
+		if i := strings.IndexByte(kv, '='); i > 0 {
+			vals[kv[:i]] = kv[i+1:]
+		}
+	}
+	// the fields any method of the struct assigns
+	assigned := map[string]bool{}
+	for key, mfd := range x.funcs {
+		if !strings.HasPrefix(key, tname+".") || mfd.Recv == nil || len(mfd.Recv.List) != 1 || len(mfd.Recv.List[0].Names) != 1 {
+			continue
+		}
+		recv := rx.p.info.Defs[mfd.Recv.List[0].Names[0]]
+		ast.Inspect(mfd.Body, func(nd ast.Node) bool {
+			mark := func(e ast.Expr) {
+				if sel, ok := ast.Unparen(e).(*ast.SelectorExpr); ok {
+					if id, ok := ast.Unparen(sel.X).(*ast.Ident); ok && rx.p.info.Uses[id] == recv {
+						assigned[sel.Sel.Name] = true
+					}
+				}
+			}
+			switch a := nd.(type) {
+			case *ast.AssignStmt:
+				for _, l := range a.Lhs {
+					mark(l)
+				}
+			case *ast.IncDecStmt:
+				mark(a.X)
+			case *ast.UnaryExpr:
+				if a.Op == token.AND {
+					mark(a.X) // its address is taken: anything may write it
+				}
+			}
+			return true
+		})
+	}
+	rx.nloop++
+	id := rx.nloop
+	obj := fmt.Sprintf("O%d", id)
+	c := &loopCtx{id: id, entry: map[types.Object]string{}, prefix: "C", maxCall: st.ncall, oentry: map[string]string{}}
+	st2 := st.clone()
+	st2.known = map[string]bool{}
+	rx.forgetWrites(st2)
+	var from []string
+	for i := 0; i < stt.NumFields(); i++ {
+		f := stt.Field(i).Name()
+		key := "o:" + obj + "." + f
+		v, has := vals[f]
+		if !has {
+			st.ncall = savedCall
+			rx.nloop = id - 1
+			return "", false, false
+		}
+		if assigned[f] {
+			k := len(c.ofields)
+			c.ofields = append(c.ofields, key)
+			c.oentry[key] = fmt.Sprintf("C%d.v%d", id, k)
+			st2.fields[key] = c.oentry[key]
+			from = append(from, fmt.Sprintf("v%d=%s", k, v))
+		} else {
+			st2.fields[key] = v
+		}
+	}
+	rx.objType[obj] = tname
+	if len(fd.Recv.List) == 1 && len(fd.Recv.List[0].Names) == 1 {
+		if ro := rx.p.info.Defs[fd.Recv.List[0].Names[0]]; ro != nil {
+			st2.vars[ro] = obj
+		}
+	}
+	i := 0
+	for _, f := range fd.Type.Params.List {
+		for _, nm := range f.Names {
+			if o := rx.p.info.Defs[nm]; o != nil && nm.Name != "_" {
+				st2.vars[o] = fmt.Sprintf("A%d.%d", id, i)
+			}
+			i++
+		}
+	}
+	if fd.Type.Results != nil {
+		for _, f := range fd.Type.Results.List {
+			if len(f.Names) > 0 {
+				st.ncall = savedCall
+				rx.nloop = id - 1
+				return "", false, true
+			}
+		}
+	}
+	fr := &vframe{nres: countResults(fd), stack: []string{fmt.Sprintf("closure%d", id), tname + "." + n.Sel.Name}}
+	fr.ret = func(st3 *vstate, rets []string) *vtree {
+		out := make([]string, len(rets))
+		for i, r := range rets {
+			out[i] = st3.norm(r)
+			if v, ok := st3.known["true("+out[i]+")"]; ok {
+				out[i] = fmt.Sprintf("lit:%v", v)
+			}
+		}
+		return rx.loopLeaf(c, st3, out)
+	}
+	saved := x.cur
+	rx.loops = append(rx.loops, c)
+	t := x.exec(fd.Body.List, st2, fr)
+	rx.loops = rx.loops[:len(rx.loops)-1]
+	x.cur = saved
+	*pend = append(*pend, tmp...)
+	return "func" + fromHeader(from) + "{" + t.String() + "}", true, true
+}
+
+// objMethod: a call `o.m(…)` on the object of a bound method under execution.
+func (rx *rowX) objMethod(call *ast.CallExpr, st *vstate) (string, *ast.FuncDecl, string) {
+	sel, ok := ast.Unparen(call.Fun).(*ast.SelectorExpr)
+	if !ok || call.Ellipsis.IsValid() {
+		return "", nil, ""
+	}
+	id, ok := ast.Unparen(sel.X).(*ast.Ident)
+	if !ok {
+		return "", nil, ""
+	}
+	o := rx.p.info.Uses[id]
+	sym := ""
+	if o != nil {
+		sym = st.vars[o]
+	}
+	tname, isObj := rx.objType[sym]
+	if !isObj || !objRef.MatchString(sym) {
+		return "", nil, ""
+	}
+	key := tname + "." + sel.Sel.Name
+	return key, rx.x.funcs[key], sym
+}
+
+// inlineObj inlines such a call (valX.inline with the receiver bound to the object instead of the row).
+func (rx *rowX) inlineObj(call *ast.CallExpr, key string, fd *ast.FuncDecl, sym string, st *vstate, fr *vframe, k func(*vstate, []string) *vtree) *vtree {
+	x := rx.x
+	for _, s := range fr.stack {
+		if s == key {
+			return x.unk(call)
+		}
+	}
+	var pend []*vtree
+	var args []string
+	for _, a := range call.Args {
+		s, ok := x.eval(a, st, &pend)
+		if !ok {
+			return x.unk(call)
+		}
+		args = append(args, s)
+	}
+	i := 0
+	for _, f := range fd.Type.Params.List {
+		if _, variadic := f.Type.(*ast.Ellipsis); variadic {
+			return x.unk(call)
+		}
+		if len(f.Names) == 0 {
+			i++
+			continue
+		}
+		for _, nm := range f.Names {
+			if i >= len(args) {
+				return x.unk(call)
+			}
+			if obj := rx.p.info.Defs[nm]; obj != nil && nm.Name != "_" {
+				st.vars[obj] = args[i]
+			}
+			i++
+		}
+	}
+	if i != len(args) || fd.Recv == nil || len(fd.Recv.List) != 1 || len(fd.Recv.List[0].Names) != 1 {
+		return x.unk(call)
+	}
+	if obj := rx.p.info.Defs[fd.Recv.List[0].Names[0]]; obj != nil {
+		st.vars[obj] = sym
+	}
+	fr2 := &vframe{nres: countResults(fd), ret: k, stack: append(append([]string{}, fr.stack...), key)}
+	x.bindNamedResults(fd, st, fr2)
+	return vwrap(pend, x.exec(fd.Body.List, st, fr2))
 }
 
 // run executes the function `key` (a method of the row struct, or a plain function) with its parameters P0, P1 …
@@ -1502,8 +1811,11 @@ var closureRe = regexp.MustCompile(`C\d+\.`)
 func (c *rfc) iterator(name string) string {
 	t := c.tree(name)
 	s := closureRe.ReplaceAllString(t.String(), "C.")
-	if s == `call#1 .Front(R.l); return [func{if isnil(C.v0) {return [lit:"",nil,lit:false] with {}} else {call#2 .Next(C.v0); return [as(C.v0.Value,string),R.m[as(C.v0.Value,string)],lit:true] with {v0=res#2}}}]` {
+	if s == `call#1 .Front(R.l); return [func from {v0=res#1}{if isnil(C.v0) {return [lit:"",nil,lit:false] with {}} else {call#2 .Next(C.v0); return [as(C.v0.Value,string),R.m[as(C.v0.Value,string)],lit:true] with {v0=res#2}}}]` {
 		return ".listFrontToBack"
+	}
+	if s == `call#1 .Front(R.l); return [func from {v0=res#1}{if isnil(C.v0) {return [lit:"",nil,lit:false] with {}} else {call#2 .Next(C.v0); return [as(C.v0.Value,string),raw(R.m[as(C.v0.Value,string)]),lit:true] with {v0=res#2}}}]` {
+		return ".listFrontToBackRaw"
 	}
 	if t.kind == "call" && t.id == 1 && eqStrs(t.args, []string{"R"}) {
 		if of, ok := methodName(t.fn); ok && t.next.String() == "return [func{call#2 call(res#1); if true(res#2.2) {return [res#2.0,raw(res#2.1),res#2.2] with {}} else {return [res#2.0,res#2.1,res#2.2] with {}}}]" {
